@@ -31,7 +31,7 @@ KERNELS_OF = {
 # array dialect (harness/np2lean.py): numpy-vectorised functions
 NP_OF = {
     'C14': [('UtilsTests', ['is_quadratic', 'is_transition_matrix', 'is_ergodic', 'is_fuzzy_ergodic', 'ergodic_mask'])],
-    'C04': [('UtilsTests', ['is_ergodic', 'ergodic_mask']), ('MsmNorm', ['row_normalize_matrix'])],
+    'C04': [('UtilsTests', ['is_ergodic', 'ergodic_mask']), ('MsmNorm', ['row_normalize_matrix', 'equilibrium_population'])],
     'C01': [('MsmNorm', ['row_normalize_matrix'])],
     'C03': [('StateTrajHS', ['_estimate_markov_model']), ('MsmNorm', ['row_normalize_matrix'])],
     'C09': [('MsmTests', ['_calc_times'])],
@@ -170,6 +170,11 @@ def gen_cases(module, kernel, rng, n):
             atol = ATOL if rng.random() < 0.85 else rng.choice([1e-3, 0.2, 1e-10])
             args = [_ratmat(m)] if kernel == 'is_quadratic' else [_ratmat(m), core.rat_str(atol)]
             yield {'k': kernel, 'args': args, 'floats': m, 'atol': atol, 'mode': 'py'}
+        elif module == 'MsmNorm' and kernel == 'equilibrium_population':
+            m = None
+            while m is None or len(m) != len(m[0]) or len(m) < 2:
+                m = _np_matrix(rng)
+            yield {'k': kernel, 'args': None, 'floats': m, 'allow': rng.random() < 0.75, 'mode': 'py'}
         elif module == 'MsmNorm':
             r_, c_ = rng.randint(1, 5), rng.randint(1, 5)
             kind = rng.random()
@@ -298,6 +303,30 @@ def real_one(module, case):
         except Exception:  # noqa
             inputs['oracle'] = {}
         fn = None
+    elif module == 'MsmNorm' and case['k'] == 'equilibrium_population':
+        # the eigen-solver is an oracle of the translated function: record what it returned in the real run
+        mat = np.array(case['floats'], dtype=np.float64)
+        rec = {}
+        orig = mod.linalg.left_eigenvectors
+
+        def spy(matrix, nvals=None):
+            try:
+                vals, vecs = orig(matrix, nvals=nvals)
+            except Exception as e:  # noqa
+                rec['err'] = core.err_name(e)
+                raise
+            rec['eig'] = (np.asarray(vals), np.asarray(vecs))
+            return vals, vecs
+
+        def _run():
+            mod.linalg.left_eigenvectors = spy
+            try:
+                return mod.equilibrium_population(mat, allow_non_ergodic=case['allow'])
+            finally:
+                mod.linalg.left_eigenvectors = orig
+        case = dict(case, _run=_run)
+        inputs = {'args': [_ratmat(case['floats']), bool(case['allow'])], '_rec': rec}
+        fn = None
     else:
         inputs = None
         fn = getattr(mod, case['k'])
@@ -358,6 +387,8 @@ def real_one(module, case):
                 return bool(call(mat))
             res = call(mat, atol=case['atol'])
             return [bool(v) for v in res] if k == 'ergodic_mask' else bool(res)
+        if module == 'MsmNorm' and k == 'equilibrium_population':
+            return [core.rat_str(float(v)) for v in case['_run']()]
         if module == 'MsmNorm':
             res = call(np.array(case['floats'], dtype=np.float64))
             return [[core.rat_str(float(v)) for v in row] for row in res]
@@ -414,6 +445,18 @@ def real_one(module, case):
     except Exception as e:  # noqa
         out = {'err': core.err_name(e)}
     if inputs is not None:
+        rec = inputs.pop('_rec', None)
+        if rec is not None:
+            if 'eig' in rec:
+                vals, vecs = rec['eig']
+                if np.any(np.abs(np.imag(vals)) > 0) or np.any(np.abs(np.imag(vecs)) > 0):
+                    return {'skip': 'complex oracle answer'}
+                inputs['oracle'] = {'eig': [[core.rat_str(float(np.real(v))) for v in vals],
+                                            [[core.rat_str(float(np.real(x))) for x in row] for row in vecs]]}
+            elif 'err' in rec:
+                inputs['oracle'] = {'eig_err': rec['err']}
+            else:
+                inputs['oracle'] = {}
         out['inputs'] = inputs
     return out
 
@@ -503,6 +546,8 @@ def same(case, real, gen):
                 if abs(fx - fy) > Fraction(1, 10 ** 14):
                     return False
         return True
+    if k == 'equilibrium_population':
+        return len(r) == len(g) and all(abs(Fraction(x) - Fraction(y)) <= Fraction(1, 10 ** 12) for x, y in zip(r, g))
     if k in ('row_normalize_matrix', '_estimate_markov_model') and case.get('np'):
         tol = Fraction(1, 10 ** 14) if k == 'row_normalize_matrix' else Fraction(1, 10 ** 8)
         if len(r) != len(g) or any(len(x) != len(y) for x, y in zip(r, g)):
